@@ -32,7 +32,11 @@ def _pair(S, fam, a, b, lam1=1, lam2=(1, 0), fe=None, fqc=False):
     if fe is None:
         o = PL.call(S.pair(fam).pairing, lq, lp)
     else:
-        o = PL.call(S.pair(fam).pairing, lq, lp, final_exponentiate=fe)
+        # the flag is the third parameter: given positionally every other time
+        if (a + b) % 2:
+            o = PL.call(S.pair(fam).pairing, lq, lp, fe)
+        else:
+            o = PL.call(S.pair(fam).pairing, lq, lp, final_exponentiate=fe)
         if o[0] == "raise" and o[1] in ("TypeError", "ValueError") and type(fe) is not bool:
             # an implementation may insist on a bool: then the bool of the same truth value is what is asked
             o = PL.call(S.pair(fam).pairing, lq, lp, final_exponentiate=bool(fe))
@@ -129,7 +133,8 @@ def _split_eval(S, fam, pairs, ms):
     Pm = S.pair(fam)
     F = S.F12
     mill, one_shot = {}, {}
-    reps = [(1, (1, 0), False), (2, (0, 2), False), (1, (1, 0), True), (S.p - 1, (3, 1), True)]
+    # scalings incl. "almost one": real part 1 with a non-zero imaginary part, and purely imaginary
+    reps = [(1, (1, 0), False), (2, (0, 2), False), (1, (1, 7 % S.p or 1), True), (S.p - 1, (3, 1), True), (1, (1, S.p - 1), False), (1, (0, 1), False)]
     for i in set(ms):
         a, b = pairs[i]
         l1, l2, fqc = reps[i % len(reps)]
@@ -163,7 +168,8 @@ def task_split(a, env):
     mill, shot = [], []
     # the raw Miller values come from varying representatives of the same points (plain, scaled,
     # FQ-object coefficients) - the one-shot values from the plain ones
-    reps = [(1, (1, 0), False), (2, (0, 2), False), (1, (1, 0), True), (S.p - 1, (3, 1), True)]
+    # scalings incl. "almost one": real part 1 with a non-zero imaginary part, and purely imaginary
+    reps = [(1, (1, 0), False), (2, (0, 2), False), (1, (1, 7 % S.p or 1), True), (S.p - 1, (3, 1), True), (1, (1, S.p - 1), False), (1, (0, 1), False)]
     for pi, (av, bv) in enumerate(pairs):
         l1, l2, fqc = reps[pi % len(reps)]
         o = _pair(S, fam, av, bv, l1, l2, fe=_FLAG_OFF[pi % 2], fqc=fqc)
@@ -251,11 +257,83 @@ def _elements_tiny(S, env, thorough):
     return els
 
 
+def _failing_calls(S, fam):
+    """history (results and exceptions ignored): the exponentiation helpers asked for malformed elements -
+    a later coefficient that is not a number, an element of the quadratic field, None"""
+    Pm = S.pair(fam)
+    M = S.curve(fam)
+    FQc = M.FQ
+    bad = []
+    try:
+        bad.append(M.FQ12([FQc(7), FQc(11)] + [None] * 10))
+        bad.append(M.FQ12([FQc(1), FQc(2), FQc(3), "x"] + [FQc(0)] * 8))
+    except Exception:  # noqa: BLE001
+        pass
+    bad += [None, "7", (1, 2)]  # (never a plain number or a smaller-field element: those have honest, enormous powers)
+    for f in (getattr(Pm, "exp_by_p", None), Pm.final_exponentiate):
+        if f is None:
+            continue
+        for b in bad:
+            try:
+                f(b)
+            except Exception:  # noqa: BLE001
+                pass
+
+
+def fedback_case(S, fam):
+    """[(label, expected, observed)]: the very objects the pairing functions return, handed to
+    final_exponentiate / exp_by_p (not rebuilt from their values)"""
+    Pm = S.pair(fam)
+    F = S.F12
+    out = []
+    for a_, b_ in ((1, 1), (2, 3)):
+        for fe in ((None, False) if fam == "opt" else (None,)):  # the reference pairing has no flag
+            o = _pair(S, fam, a_, b_, fe=fe)
+            if o[0] != "ok":
+                out.append(("pairing computes", "a value", o))
+                continue
+            obj = o[1]
+            v = _co(S, o)
+            for which, e_ in (("final_exponentiate", (S.p ** 12 - 1) // S.r), ("exp_by_p", S.p)):
+                f = getattr(Pm, which, None)
+                if f is None:
+                    continue
+                exp = F.pow(tuple(v), e_)
+                got = _co(S, PL.call(f, obj))
+                out.append(("%s(object returned by pairing(%d*G2, %d*G1%s))" % (which, b_, a_, "" if fe is None else ", final_exponentiate=False"), exp, got))
+                out.append(("%s(the same object again)" % which, exp, _co(S, PL.call(f, obj))))
+            # and the value must not have been changed by being used
+            out.append(("object unchanged after use", v, _co(S, ("ok", obj))))
+    return out
+
+
+def task_fedback(a, env):
+    S = PL.get(a["cfg"])
+    r = R("%s:%s:returned-objects-as-arguments" % (a["cfg"], a["fam"]))
+    _failing_calls(S, a["fam"])
+    for i, (lbl, exp, got) in enumerate(fedback_case(S, a["fam"])):
+        r.ev += 1
+        r.dk.add(lbl)
+        if exp != got:
+            r.viol("C12:%s:%s:returned-object:%s" % (a["cfg"], a["fam"], lbl.split("(")[0]), ME + ":replay_fedback",
+                   {"cfg": a["cfg"], "fam": a["fam"], "i": i}, exp, got, note=lbl)
+    r.sample({"cfg": a["cfg"], "case": "final_exponentiate(x) where x is the object pairing() returned"})
+    return r
+
+
+def replay_fedback(a):
+    S = PL.get(a["cfg"])
+    _failing_calls(S, a["fam"])
+    lbl, exp, got = fedback_case(S, a["fam"])[a["i"]]
+    return None if exp == got else {"case": lbl, "expected": exp, "observed": got}
+
+
 def fe_case(S, fam, which, v, fq_coeffs=False):
     """(expected, observed) for final_exponentiate / exp_by_p on model element v; fq_coeffs:
     the element carries same-family FQ objects instead of ints (a constructor form the classes keep)"""
     Pm = S.pair(fam)
     F = S.F12
+    _failing_calls(S, fam)
     if fq_coeffs:
         FQc = S.curve(fam).FQ
         x = S.curve(fam).FQ12([FQc(c) for c in v])
@@ -450,6 +528,8 @@ def run(ctx):
                                      "thin": 12 if ctx.quick else 2}))
     for cfg in PL.FULL + ("BLS-T2", "BN-T"):
         tasks.append(("refopt_inf", {"cfg": cfg}))
+        for fam in ("opt", "ref"):
+            tasks.append(("fedback", {"cfg": cfg, "fam": fam}))
     for cfg in ("BN-T", "BLS-T2"):
         for fam in ("opt", "ref"):
             n = (300 if fam == "opt" else 100) if ctx.quick else (5000 if fam == "opt" else 1000)
